@@ -93,6 +93,32 @@ theorem crashHandler_ok {n i : Nat} {dn c : Bool} {h : Handler} (hk : HOk n dn c
   unfold crashHandler HOk at *
   grind
 
+theorem toCloser_ok {n i : Nat} {dn c : Bool} {h : Handler} (hk : HOk n dn c h) :
+    HOk n dn true (toCloser true n i h) := by
+  unfold toCloser HOk at *
+  grind
+
+theorem toCloser_done {f : Bool} {n i : Nat} {h : Handler} (hd : h.status = .done) :
+    (toCloser f n i h).status = .done := by
+  unfold toCloser; simp [hd]
+
+theorem toCloser_of_down {f : Bool} {i n : Nat} {c : Bool} {h : Handler} (hk : HOk n true c h) :
+    toCloser f n i h = h := by
+  unfold toCloser HOk at *
+  grind
+
+/-- the waiting handler that is let go on is inside `close()` afterwards (force_after > 0) -/
+theorem toCloser_resuming {f : Bool} {n i fa : Nat} {h : Handler} (hr : resuming i h = some fa)
+    (hfa : fa ≠ 0) : (toCloser f n i h).inClose = true := by
+  unfold resuming at hr
+  unfold toCloser Handler.inClose
+  grind
+
+theorem toCloser_inClose {f : Bool} {n i : Nat} {h : Handler} (hin : h.inClose = true) :
+    toCloser f n i h = h := by
+  unfold toCloser Handler.inClose at *
+  grind
+
 /-! ## outgoing requests -/
 
 /-- what holds of an outgoing request at clock `n`: one registered after the hook ran exists
